@@ -378,6 +378,11 @@ def search(ck: Check) -> None:
         doc, _ = semgen.gen_doc(rng.fork(str(i)), semgen.GenCfg(draft4=(i % 5 == 0)))
         for st in STYLES:
             tasks.append((doc, st, VARIANTS))
+    for i in range(30):
+        spec, _f, classes = semfam.openapi_params_doc(rng.fork(f"oa{i}"), i)
+        for st in STYLES:
+            for root, jdoc in classes[:1]:
+                tasks.append((jdoc, st, VARIANTS, {"openapi": spec, "root": root}))
     run_tasks(ck, camp, tasks)
 
 
